@@ -248,7 +248,7 @@ func genC14s(t *rapid.T) c14sScenario {
 	sc := c14sScenario{Between: rapid.IntRange(0, 9).Draw(t, "between") < 7}
 	// host names are compared as written (a configured host with an upper-case letter is legal)
 	hostPool := []string{"aa.test", "bb.test", "cc.test", "AA.test", "Shop.BB.test"}
-	prefixPool := []string{"/a", "/a/b", "/b", "/api", "/search?type=img", "/a%20b", "/q?"}
+	prefixPool := []string{"/a", "/a/b", "/b", "/api", "/search?type=img", "/a%20b", "/q?", "/", "/"}
 	n := rapid.IntRange(1, 5).Draw(t, "nLocs")
 	for i := 0; i < n; i++ {
 		l := c14sLoc{Name: fmt.Sprintf("loc%d", i)}
